@@ -1177,7 +1177,20 @@ def needle_walks(facts, fn, is_needle):
             continue
         src = fn.expr_of_operand(fn.blocks[nxt[0]]["term"]["args"][0])
         if needle_tail(src):
-            if any(fn.blocks[bi]["term"]["k"] == "call" and callee(fn.blocks[bi]["term"]).endswith("Try>::branch") for bi in body):
+            leaves_with_none = any(fn.blocks[bi]["term"]["k"] == "call" and callee(fn.blocks[bi]["term"]).endswith("Try>::branch") for bi in body)
+            if not leaves_with_none:
+                # `let Some(i) = .. else { return None }` / `match .. { None => return None, .. }`: an exit of the loop other
+                # than exhaustion whose way to the return builds a None result for the function
+                for a_, b_ in fn.loop_exits((h, body, None)):
+                    if (a_ == nxt[1] and b_ == nxt[2]) or is_diverging(fn, b_):
+                        continue
+                    reach_ = fn.reach_from(b_, include_start=True) if "include_start" in fn.reach_from.__code__.co_varnames else (fn.reach_from(b_) | {b_})
+                    nb_ = [x for x in reach_ if x in nones and x not in body]
+                    for x in nb_:
+                        for st_ in fn.blocks[x]["stmts"]:
+                            if st_["k"] == "assign" and st_["rv"].get("variant") == "None" and st_["lhs"]["l"] == 0 and not st_["lhs"]["p"]:
+                                leaves_with_none = True
+            if leaves_with_none:
                 out.append((h, nxt[2], "needle"))
             continue
         inner = []
